@@ -644,13 +644,13 @@ func (r *proxyStreamReceiver) Run(
 	r.ackChan = make(chan RoutedAck, 100)
 	if r.shardManager != nil {
 		r.shardManager.SetLocalAckChan(r.sourceShardID, r.ackChan)
-		r.shardManager.SetLocalReceiverCancelFunc(r.sourceShardID, cancel)
+		r.shardManager.SetLocalReceiverCancelFunc(r.sourceShardID, cancel, r)
 		// Register receiver for watermark propagation to late-registering shards
 		r.shardManager.RegisterActiveReceiver(r.sourceShardID, r)
 		defer func() {
 			r.shardManager.RemoveLocalAckChan(r.sourceShardID, r.ackChan)
-			r.shardManager.RemoveLocalReceiverCancelFunc(r.sourceShardID)
-			r.shardManager.UnregisterActiveReceiver(r.sourceShardID)
+			r.shardManager.RemoveLocalReceiverCancelFunc(r.sourceShardID, r)
+			r.shardManager.UnregisterActiveReceiver(r.sourceShardID, r)
 		}()
 	}
 
